@@ -24,6 +24,8 @@ import YalafiVerif.Proofs.Lines
 import YalafiVerif.Properties.PlainVanishStmt
 import YalafiVerif.Properties.PlainMixStmt
 import YalafiVerif.Properties.PlainMix2Stmt
+import YalafiVerif.Properties.PlainParaStmt
+import YalafiVerif.Properties.PlainParEnvStmt
 namespace Yalafi
 
 theorem C05_scanSpace_kind (start : Nat) (rest : Str) :
